@@ -183,6 +183,8 @@ func cmdVerify(args []string) {
 		for _, c := range fc.covers {
 			if c.Result != "unsat" {
 				reach++
+			} else if *verbose {
+				fmt.Printf("   unreachable return %s trace=%v\n", c.Name, c.Trace)
 			}
 		}
 		byName := map[string][]*Obligation{}
